@@ -93,6 +93,23 @@ def narrowed(rng):
     return hist(sz, bytes(b))
 
 
+def near_tags(rng):
+    """the chunk tag after the format chunk is almost "fact" (or is "fact" where "data" was): the extent of the header
+    depends on an exact 4-byte comparison"""
+    out = []
+    for hdr in c13.valid_headers(rng):
+        ext = pw.header_extent(hdr, len(hdr))
+        has_fact = hdr[ext - 20:ext - 16] == pw.FACT
+        pos = ext - 20 if has_fact else ext - 8
+        for tag in (b'facs', b'facT', b'Fact', b'fac\0', b'\0act', b'fact', b'data'):
+            b = bytearray(hdr)
+            b[pos:pos + 4] = tag
+            b += bytes(rng.below(256) for _ in range(16))
+            out.append(hist(len(b), bytes(b)))
+            out.append(hist(pos + 8, bytes(b)))
+    return out
+
+
 def harness(ctx):
     return c13.harness(ctx)
 
@@ -109,7 +126,7 @@ def run(ctx):
     hs = pw.corpus('C14')
     ncorpus = len(hs)
     ntrunc = nmut = 0
-    for _ in range(2 if q else 20):
+    for _ in range(5 if q else 60):
         for hdr in c13.valid_headers(rng):
             for k in range(len(hdr)):                             # every truncation point, exactly-sized
                 hs.append(hist(k, hdr)); ntrunc += 1
@@ -119,9 +136,11 @@ def run(ctx):
                 m = c13.mutate(rng, hdr)
                 sz = rng.choice([len(m), len(m), rng.range(0, len(m)), len(hdr) if len(hdr) <= len(m) else len(m)])
                 hs.append(hist(sz, m)); nmut += 1
-    nadv = 300 if q else 6000
+    nadv = 1500 if q else 40000
     hs += [adversarial(rng) if i % 3 else narrowed(rng) for i in range(nadv)]
-    nrand = 100 if q else 3000
+    near = near_tags(rng)
+    hs += near
+    nrand = 400 if q else 20000
     for _ in range(nrand):                                        # random bytes of every small length
         n = rng.range(0, 100)
         b = bytes(rng.below(256) for _ in range(n))
@@ -140,8 +159,12 @@ def run(ctx):
     for h in hs:
         ctx.count(tuple(h), nontrivial=h[0].startswith('dec') and int(h[0].split()[1]) >= 36)
     ctx.cov['traces_validated_against_impl'] = agreed
+    if ctx.tier == 'thorough':
+        R = vlib.REPO
+        ctx.cov['line_coverage_of_modelled_code'] = pw.uncovered_lines(ctx, os.path.join(vlib.VERIF, 'harness/h_wav.c'),
+            [R + '/librfn/wavheader.c', R + '/librfn/pack.c', R + '/librfn/string.c', R + '/librfn/util.c', R + '/librfn/posix/time_posix.c'], hs)
     ctx.cov['decode_results'] = kinds
-    ctx.cov['histories'] = {'corpus': ncorpus, 'truncation_points': ntrunc, 'field_mutated': nmut, 'adversarial_size_fields': nadv, 'random_bytes': nrand}
+    ctx.cov['histories'] = {'corpus': ncorpus, 'truncation_points': ntrunc, 'field_mutated': nmut, 'adversarial_size_fields': nadv, 'near_miss_tags': len(near), 'random_bytes': nrand}
     ctx.sample({'history': [x[:150] for x in hs[ncorpus + 50]]})
     ctx.sample({'history': [x[:150] for x in hs[-20]]})
     ctx.cov['rule'] = ('each history = decode(exactly-sized heap copy of sz bytes) then validate, get_format, tostring on whatever structure resulted; inputs: every truncation point of valid PCM / float+fact / '
